@@ -315,3 +315,44 @@ Proof.
   now rewrite Hv0.
 Qed.
 End Core.
+
+(* what the writer's checks guarantee for a run it accepted *)
+Lemma collect_accepted fp o sizes inp ids outs sum data c vs :
+  bw_collect fp o sizes inp = Ok (ids, outs, sum, data) -> NoDup (map fst (runs inp)) -> In (c, vs) (runs inp) ->
+  exists len, lookup c sizes = Some len /\ wf_vals len vs /\ vs <> [].
+Proof.
+  intros Hcol Hnd Hin. destruct (bw_collect_inv _ _ _ _ _ _ _ _ Hcol) as (_ & Hp & _).
+  destruct (process_runs_spec o sizes (runs inp) None [] ids outs Hp Hnd (fun _ _ => eq_refl)) as (_ & HF & _).
+  destruct (Forall2_in_l _ _ _ _ HF Hin) as [c0 [_ (_ & _ & Hl & Hk)]]. cbn [fst snd] in *.
+  exists (co_len c0). split; [exact Hl|]. split; [now apply check_chrom_wf|].
+  pose proof (runs_nonempty inp) as Hrn. rewrite Forall_forall in Hrn. exact (Hrn _ Hin).
+Qed.
+
+(* ---------- both writers: everything follows from [assemble] on what bw_collect returned ---------- *)
+Definition expected_chroms (sizes : list (name * N)) (inp : list item) : list chrom_info :=
+  map (ci_of sizes) (number 0 (map fst (runs inp))).
+
+Theorem assemble_roundtrip fp o sizes inp ids outs sum data zoom_part dco bs :
+  bw_collect fp o sizes inp = Ok (ids, outs, sum, data) ->
+  assemble o BIGWIG_MAGIC sizes ids sum data bw_pre 0 0 0 zoom_part dco = Ok bs ->
+  (forall ds zp zb zh, zoom_part ds zp = Ok (zb, zh) -> Nlen zh <= 10) ->
+  opts_ok o -> input_ok sizes inp -> Nlen bs < U64 ->
+  exists p i,
+    assembled o BIGWIG_MAGIC sizes ids sum data bw_pre 0 0 0 zoom_part dco bs p
+    /\ read_info bs = Ok i
+    /\ i_hdr i = written_header (Nlen (data_bytes data)) (Nlen (fp_ct p)) (Nlen (fp_zhdrs p))
+    /\ i_chroms i = expected_chroms sizes inp
+    /\ length (i_zooms i) = length (fp_zhdrs p)
+    /\ (Forall zh_ok (fp_zhdrs p) -> i_zooms i = fp_zhdrs p)
+    /\ forall infl c vs s e, In (c, vs) (runs inp) -> bw_interval infl bs i c s e = Ok (clip_filter s e vs).
+Proof.
+  intros Hcol Hasm Hz Hopts Hinp Hsize.
+  destruct (assemble_inv _ _ _ _ _ _ _ _ _ _ _ _ _ Hasm) as [p HA].
+  { intros ds zp zb zh E. specialize (Hz _ _ _ _ E). change (Nlen bw_pre) with 352. lia. }
+  destruct (core_read_info fp o sizes inp ids outs sum data zoom_part dco bs p Hcol HA Hinp Hsize)
+    as [zs [Hri [Hzl Hzs]]].
+  exists p. eexists. split; [exact HA|]. split; [exact Hri|]. cbn [i_hdr i_chroms i_zooms].
+  split; [reflexivity|]. split; [reflexivity|]. split; [exact Hzl|]. split; [exact Hzs|].
+  intros infl c vs s e Hin.
+  exact (core_query fp o sizes inp ids outs sum data zoom_part dco bs p Hcol HA Hopts Hinp Hsize infl _ c vs s e Hri Hin).
+Qed.
